@@ -14,6 +14,9 @@ import BB.Proofs.DictEq
 import BB.Model.Tools
 import BB.Proofs.Sweep
 import BB.Properties.C09
+import BB.Proofs.G5Sweep
+import BB.Proofs.G5Repeat
+import BB.Proofs.G5Values
 
 namespace BB.C17
 open BB BB.Tools
@@ -280,5 +283,337 @@ theorem repeatLoop_step (seq : Sequence) (pv : List (ℤ × Variation)) (step : 
 /-- zero steps: the result is the empty sequence with the input's settings -/
 theorem repeatLoop_nil (seq : Sequence) (pv : List (ℤ × Variation)) (acc : Sequence) :
     repeatLoop seq pv [] acc = .ok acc := rfl
+
+/-! ### makeLinearlyVaryingSequence: position by position -/
+
+/-- the `j`-th value of the linear sweep with `n` steps: `start + j·(stop − start)/(n − 1)`
+    (`start` alone when there is a single step) -/
+def linValue (start stop : ℚ) (n j : ℕ) : ℚ :=
+  if n = 1 then start else start + (j : ℚ) * ((stop - start) / ((n : ℚ) - 1))
+
+/-- clause "steps the value from start to stop inclusive in equidistant steps": every value of the
+    sweep, the single-step case included -/
+theorem linspace_getElem_all (start stop : ℚ) (n j : ℕ) (hj : j < n) :
+    (linspace start stop n)[j]'(by rw [linspace_length]; exact hj) = linValue start stop n j := by
+  unfold linValue
+  by_cases h1 : n = 1
+  · subst h1
+    have : j = 0 := by omega
+    subst this
+    simp [linspace]
+  · simp only [h1, if_false]
+    exact linspace_getElem start stop n j (by omega) hj
+
+/-- **what `makeLinearlyVaryingSequence` returns**: with `n = round(|stop − start|/step) + 1` steps
+    (`step ≠ 0`, `n ≥ 0`, else it raises), a sequence whose only AWG setting is the base element's
+    sample rate, with exactly the positions `1..n` (default sequencing each), position `j + 1`
+    holding the base element with the addressed argument (or duration) changed to
+    `start + j·(stop − start)/(n − 1)` — every change accepted, every changed element valid -/
+theorem makeLinearly_spec (base : Element) (ch : Chan) (name : String) (arg : Val) (start stop step : ℚ)
+    (s : Sequence) (h : makeLinearlyVaryingSequence base ch name arg start stop step = .ok s) :
+    ∃ sr, base.getSR = .ok sr ∧ step ≠ 0 ∧ 0 ≤ linCount start stop step ∧
+      Dict.keys s.data = oneTo (linCount start stop step).toNat ∧
+      s.sequencing = (oneTo (linCount start stop step).toNat).map (fun p => (p, Sequence.defaultSeqEl)) ∧
+      s.awgspecs = [("SR", .val sr)] ∧
+      ∀ j, j < (linCount start stop step).toNat → ∃ m,
+        (applyChange base ch name arg (.num (linValue start stop (linCount start stop step).toNat j))).err = none ∧
+        (applyChange base ch name arg (.num (linValue start stop (linCount start stop step).toNat j))).st.validate = .ok m ∧
+        Dict.get? s.data ((j + 1 : ℕ) : ℤ) = some (.el
+          { (applyChange base ch name arg (.num (linValue start stop (linCount start stop step).toNat j))).st with
+            cache := some m }) := by
+  unfold makeLinearlyVaryingSequence at h
+  cases hsr : base.getSR with
+  | error er => rw [hsr] at h; cases h
+  | ok sr =>
+    rw [hsr] at h
+    simp only at h
+    by_cases hstep : step = 0
+    · simp [hstep] at h
+    · simp only [hstep, if_false] at h
+      by_cases hneg : linCount start stop step < 0
+      · simp [hneg] at h
+      · simp only [hneg, if_false] at h
+        have hfill : G5.Filled (({} : Sequence).setSR sr) 0 := ⟨rfl, rfl⟩
+        obtain ⟨hf, hspec, _, hall⟩ := G5.linLoop_spec base ch name arg _ 0 _ s hfill h
+        rw [Nat.zero_add, linspace_length] at hf
+        refine ⟨sr, rfl, hstep, not_lt.mp hneg, hf.1, hf.2, by rw [hspec]; rfl, fun j hj => ?_⟩
+        obtain ⟨m, h1, h2, h3⟩ := hall j (by rw [linspace_length]; exact hj)
+        rw [linspace_getElem_all start stop _ j hj] at h1 h2 h3
+        rw [Nat.zero_add] at h3
+        exact ⟨m, h1, h2, h3⟩
+
+/-! ### makeVaryingSequence: the exact key set -/
+
+/-- **`makeVaryingSequence` returns exactly the positions `1..M`** (in this order), each with the
+    default sequencing entry — nothing else is stored -/
+theorem makeVarying_keys (base : Element) (lens : List Nat) (vars : List Variation) (s : Sequence)
+    (h : makeVaryingSequence base lens vars = .ok s) :
+    ∃ M, sweepSteps lens vars = .ok M ∧ Dict.keys s.data = oneTo M ∧ s.data.length = M ∧
+      s.sequencing = (oneTo M).map (fun p => (p, Sequence.defaultSeqEl)) := by
+  unfold makeVaryingSequence at h
+  cases hv : base.validate with
+  | error er => simp [hv] at h
+  | ok m =>
+    simp only [hv] at h
+    cases hs : sweepSteps lens vars with
+    | error er => simp [hs] at h
+    | ok M =>
+      simp only [hs] at h
+      cases hc : addCopies base M 0 (({} : Sequence).setSR m.1) with
+      | error er => simp [hc] at h
+      | ok s0 =>
+        simp only [hc] at h
+        cases ha : applyVars vars s0 with
+        | error er => simp [ha] at h
+        | ok s1 =>
+          simp only [ha] at h
+          cases hk : s1.checkConsistency with
+          | error er => simp [hk] at h
+          | ok b =>
+            cases b with
+            | false => simp [hk] at h
+            | true =>
+              simp only [hk, Except.ok.injEq] at h
+              subst h
+              have hfill : G5.Filled (({} : Sequence).setSR m.1) 0 := ⟨rfl, rfl⟩
+              obtain ⟨hf, _⟩ := G5.addCopies_filled base M 0 _ s0 hfill hc
+              rw [Nat.zero_add] at hf
+              obtain ⟨k1, k2, _⟩ := G5.applyVars_shape vars s0 s1 ha
+              refine ⟨M, rfl, by rw [k1, hf.1], ?_, by rw [k2, hf.2]⟩
+              have := congrArg List.length (k1.trans hf.1)
+              simpa [Dict.keys, oneTo_length] using this
+
+/-! ### repeatAndVarySequence: the fold of `+` over the varied copies -/
+
+/-- **what `repeatAndVarySequence` returns**: with `M` steps, there are `M` varied copies of `seq`
+    (`temps[i]` = the copy with the `i`-th values applied at the addressed positions:
+    `G5.applyStep_spec` / `G5.stepEntry`), every `+` of the loop returned, and the result is the
+    fold of `+` over them starting from the bare settings: it has `M · len(seq)` positions, carries
+    exactly `seq`'s AWG settings, and position `i·len(seq) + p` holds (a copy of) what the `i`-th
+    varied copy holds at `p` — i.e. `seq`'s entry at `p` with the `i`-th values applied -/
+theorem repeatAndVary_spec (seq : Sequence) (lens : List Nat) (poss : List ℤ) (vars : List Variation) (r : Sequence)
+    (h : repeatAndVarySequence seq lens poss vars = .ok r) :
+    ∃ (M : ℕ) (temps : List Sequence), seq.checkConsistency = .ok true ∧ sweepSteps lens vars = .ok M ∧ temps.length = M ∧
+      (∀ i (hi : i < temps.length), applyStep i (poss.zip vars) seq.copy = .ok temps[i]) ∧
+      temps.foldlM Sequence.add { awgspecs := seq.awgspecs } = .ok r ∧
+      r = temps.foldl Sequence.addCore { awgspecs := seq.awgspecs } ∧
+      r.data.length = M * seq.data.length ∧ r.awgspecs = seq.awgspecs ∧
+      ∀ i, i < temps.length → ∀ (p : ℤ) (en : Entry), Dict.get? seq.data p = some en →
+        Dict.get? r.data (p + ((i * seq.data.length : ℕ) : ℤ)) =
+          some (Sequence.copyEntry (G5.stepEntry i (poss.zip vars) p en)) := by
+  unfold repeatAndVarySequence at h
+  cases hc : seq.checkConsistency with
+  | error er => rw [hc] at h; cases h
+  | ok b =>
+    cases b with
+    | false => rw [hc] at h; cases h
+    | true =>
+      rw [hc] at h
+      simp only at h
+      cases hs : sweepSteps lens vars with
+      | error er => rw [hs] at h; cases h
+      | ok M =>
+        rw [hs] at h
+        simp only at h
+        obtain ⟨temps, hl, hall, hfold⟩ := G5.repeatLoop_spec seq _ _ _ r h
+        rw [List.length_range] at hl
+        have hstep : ∀ i (hi : i < temps.length), applyStep i (poss.zip vars) seq.copy = .ok temps[i] := by
+          intro i hi
+          have := hall i (by simpa [hl] using hi) hi
+          simpa using this
+        have hshape : ∀ t ∈ temps, t.data.length = seq.data.length ∧ t.awgspecs = seq.awgspecs := by
+          intro t ht
+          obtain ⟨i, hi, rfl⟩ := List.getElem_of_mem ht
+          obtain ⟨k1, _, k3, _⟩ := G5.applyStep_spec i _ _ _ (hstep i hi)
+          refine ⟨?_, k3⟩
+          have := congrArg List.length k1
+          simp only [Dict.keys, List.length_map] at this
+          exact this
+        obtain ⟨e1, e2, e3, e4⟩ := G5.foldAdd_spec temps _ r seq.data.length hfold
+          (fun t ht => (hshape t ht).1) (fun t ht => (hshape t ht).2)
+        refine ⟨M, temps, rfl, rfl, hl, hstep, hfold, e1, ?_, e3, ?_⟩
+        · rw [e2, hl]; simp
+        · intro i hi p en hp
+          obtain ⟨k1, _, _, k4⟩ := G5.applyStep_spec i _ _ _ (hstep i hi)
+          have hget := k4 p en hp
+          have hk : p ∈ Dict.keys temps[i].data := (Dict.get?_isSome_iff _ _).mp (by rw [hget]; rfl)
+          have := e4 i hi p hk
+          simp only [List.length_nil, Nat.zero_add] at this
+          rw [this, hget]
+          rfl
+
+/-! ### the value theorem -/
+
+/-- **`makeVaryingSequence` changes exactly the addressed values**: let the base element's
+    blueprints have distinct segment names (`G5.NamesOk`; true of every stored blueprint) and let
+    the variations address pairwise different slots (channel, segment, argument or `'duration'`;
+    `G5.addrOf` resolves names and positions of arguments to the same slot).  Then at every step
+    `j < M` the element at position `j + 1`
+    * holds, in the slot addressed by each variation `v`, the value `v.vals[j]` (= `iters[k][j]`),
+    * reads in every other slot of every segment on every channel exactly as the base element, and
+    * has the base element's skeleton: channels and their order, flags, sample rates, absolute and
+      segment-bound markers, segment names, functions, numbers of arguments, raw arrays. -/
+theorem makeVarying_values (base : Element) (lens : List Nat) (vars : List Variation) (s : Sequence)
+    (h : makeVaryingSequence base lens vars = .ok s) (hn : G5.NamesOk base)
+    (hd : (vars.map (G5.addrOf base)).Pairwise (· ≠ ·)) :
+    ∃ M, sweepSteps lens vars = .ok M ∧ ∀ j, j < M → ∃ ej, Dict.get? s.data ((j + 1 : ℕ) : ℤ) = some (.el ej) ∧
+      (∀ v ∈ vars, ∃ a val, v.vals[j]? = some val ∧ G5.addrOf base v = some a ∧ G5.readAt ej a = some val) ∧
+      (∀ a, (∀ v ∈ vars, G5.addrOf base v ≠ some a) → G5.readAt ej a = G5.readAt base a) ∧
+      G5.skeleton ej = G5.skeleton base := by
+  unfold makeVaryingSequence at h
+  cases hv : base.validate with
+  | error er => simp [hv] at h
+  | ok m =>
+    simp only [hv] at h
+    cases hs : sweepSteps lens vars with
+    | error er => simp [hs] at h
+    | ok M =>
+      simp only [hs] at h
+      cases hc : addCopies base M 0 (({} : Sequence).setSR m.1) with
+      | error er => simp [hc] at h
+      | ok s0 =>
+        simp only [hc] at h
+        cases ha : applyVars vars s0 with
+        | error er => simp [ha] at h
+        | ok s1 =>
+          simp only [ha] at h
+          cases hk : s1.checkConsistency with
+          | error er => simp [hk] at h
+          | ok b =>
+            cases b with
+            | false => simp [hk] at h
+            | true =>
+              simp only [hk, Except.ok.injEq] at h
+              subst h
+              obtain ⟨_, v0, rest, hvars, hall, hM⟩ := (sweepSteps_ok_iff lens vars M).mp hs
+              have hlen : ∀ w ∈ vars, w.vals.length = M := by
+                intro w hw
+                rw [hvars] at hw
+                rcases List.mem_cons.mp hw with rfl | hw
+                · exact hM.symm
+                · rw [hall w hw, hM]
+              refine ⟨M, rfl, fun j hj => ?_⟩
+              have h0 := C09.addCopies_get base m hv M 0 _ s0 hc j hj
+              simp only [Nat.zero_add] at h0
+              have hget := (applyVars_spec vars M hlen s0 s1 ha j hj _ h0).1
+              have hok := G5.applyVars_ok vars M hlen s0 s1 ha j hj _ h0
+              -- the stored base element differs from `base` in the validation cache only
+              have hn' : G5.NamesOk ({ base with cache := some m } : Element) := hn
+              have hd' : (vars.map (G5.addrOf ({ base with cache := some m } : Element))).Pairwise (· ≠ ·) := hd
+              obtain ⟨v1, v2, _, _⟩ := G5.varied_values _ vars j hn' hok hd'
+              refine ⟨_, hget, ?_, ?_, ?_⟩
+              · intro v hv'
+                obtain ⟨a, ha1, ha2⟩ := v1 v hv'
+                have hl := hlen v hv'
+                refine ⟨a, v.vals.getD j .none, ?_, ha1, ha2⟩
+                simp [List.getD, List.getElem?_eq_getElem (show j < v.vals.length by omega)]
+              · intro a hna
+                exact v2 a hna
+              · exact G5.varied_skeleton _ vars j hn' hok
+
+/-- **the linear sweep changes exactly the addressed value**: at every step `j` the element at
+    position `j + 1` reads `start + j·(stop − start)/(n − 1)` in the addressed slot, reads as the base
+    element in every other slot, and has the base element's skeleton -/
+theorem makeLinearly_values (base : Element) (ch : Chan) (name : String) (arg : Val) (start stop step : ℚ)
+    (s : Sequence) (h : makeLinearlyVaryingSequence base ch name arg start stop step = .ok s) (hn : G5.NamesOk base) :
+    ∀ j, j < (linCount start stop step).toNat → ∃ ej sl, Dict.get? s.data ((j + 1 : ℕ) : ℤ) = some (.el ej) ∧
+      G5.addrOf base ⟨ch, name, arg, []⟩ = some (ch, name, sl) ∧
+      G5.readAt ej (ch, name, sl) = some (.num (linValue start stop (linCount start stop step).toNat j)) ∧
+      (∀ a, a ≠ (ch, name, sl) → G5.readAt ej a = G5.readAt base a) ∧ G5.skeleton ej = G5.skeleton base := by
+  obtain ⟨sr, _, _, _, _, _, _, hall⟩ := makeLinearly_spec base ch name arg start stop step s h
+  intro j hj
+  obtain ⟨m, h1, _, h3⟩ := hall j hj
+  obtain ⟨sl, ha, hr, _, _⟩ := G5.applyChange_reads base ch name arg _ hn h1
+  refine ⟨_, sl, h3, ha, ?_, ?_, ?_⟩
+  · rw [G5.readAt_cache, hr (ch, name, sl)]
+    simp
+  · intro a hne
+    rw [G5.readAt_cache, hr a]
+    simp [hne]
+  · rw [G5.skeleton_cache]
+    exact G5.applyChange_skeleton base ch name arg _ hn h1
+
+/-- **`repeatAndVarySequence` changes exactly the addressed values**: in repetition `i`, the
+    element that `seq` holds at position `p` appears at position `i·len(seq) + p` with, for every
+    variation addressed to position `p`, the addressed slot holding that variation's `i`-th value,
+    every other slot as in `seq`'s element, and the same skeleton (the variations addressed to one
+    position must address pairwise different slots; an unaddressed position is simply copied) -/
+theorem repeatAndVary_values (seq : Sequence) (lens : List Nat) (poss : List ℤ) (vars : List Variation) (r : Sequence)
+    (h : repeatAndVarySequence seq lens poss vars = .ok r) (p : ℤ) (e : Element)
+    (hp : Dict.get? seq.data p = some (.el e)) (hn : G5.NamesOk e)
+    (hd : ((G5.varsAt (poss.zip vars) p).map (G5.addrOf e)).Pairwise (· ≠ ·)) :
+    ∃ M, sweepSteps lens vars = .ok M ∧ ∀ i, i < M → ∃ ei,
+      Dict.get? r.data (p + ((i * seq.data.length : ℕ) : ℤ)) = some (.el ei) ∧
+      (∀ v ∈ G5.varsAt (poss.zip vars) p, ∃ a, G5.addrOf e v = some a ∧ G5.readAt ei a = some (v.vals.getD i .none)) ∧
+      (∀ a, (∀ v ∈ G5.varsAt (poss.zip vars) p, G5.addrOf e v ≠ some a) → G5.readAt ei a = G5.readAt e a) ∧
+      G5.skeleton ei = G5.skeleton e := by
+  obtain ⟨M, temps, _, hs, hl, hstep, _, _, _, _, hget⟩ := repeatAndVary_spec seq lens poss vars r h
+  refine ⟨M, hs, fun i hi => ?_⟩
+  have hi' : i < temps.length := by omega
+  have hok := G5.applyStep_ok i _ _ _ (hstep i hi') p e hp
+  obtain ⟨v1, v2, _, _⟩ := G5.varied_values e _ i hn hok hd
+  refine ⟨G5.stepVaried i (poss.zip vars) p e, ?_, ?_, ?_, ?_⟩
+  · rw [hget i hi' p _ hp]; rfl
+  · rw [G5.stepVaried_eq_varied]; exact v1
+  · rw [G5.stepVaried_eq_varied]; exact v2
+  · rw [G5.stepVaried_eq_varied]; exact G5.varied_skeleton e _ i hn hok
+
+/-! ### non-vacuity: each tool returns a sequence, and the hypotheses above are satisfiable -/
+
+def exBP : BP :=
+  { segs := [{ name := "ramp", fn := Fn.rampFn, args := [.num 0, .num 1], dur := .num 1 },
+             { name := "ramp2", fn := Fn.rampFn, args := [.num 1, .num 0], dur := .num 1 }], SR := .num 10 }
+
+/-- a two-channel base element -/
+def exBase : Element := ⟨[(.int 1, { data := .bp exBP }), (.int 2, { data := .bp exBP })], none⟩
+
+/-- three simultaneous variations in two steps: an argument by name, another argument of the same
+    segment by position, an argument of another segment on another channel -/
+def exVars : List Variation :=
+  [⟨.int 1, "ramp", .str "stop", [.num 2, .num 3]⟩, ⟨.int 1, "ramp", .num 0, [.num (1/2), .num (1/4)]⟩,
+   ⟨.int 2, "ramp2", .str "start", [.num 5, .num 6]⟩]
+
+/-- a one-channel element (a duration can be swept on it without invalidating it) -/
+def exBase1 : Element := ⟨[(.int 1, { data := .bp exBP })], none⟩
+
+def exSeq : Sequence :=
+  (Sequence.addElement (Sequence.addElement (SeqCore.setSR ({} : Sequence) (.num 10)) 1 exBase).st 2 exBase).st
+
+/-- the hypotheses of the value theorems hold of the example: distinct segment names, pairwise
+    different addressed slots (resolved: argument 1, argument 0, argument 0 on another channel) -/
+example : G5.NamesOk exBase ∧ (exVars.map (G5.addrOf exBase)).Pairwise (· ≠ ·) ∧
+    exVars.map (G5.addrOf exBase) =
+      [some (.int 1, "ramp", .arg 1), some (.int 1, "ramp", .arg 0), some (.int 2, "ramp2", .arg 0)] :=
+  ⟨G5.namesOk_of_check _ (by decide +kernel), by decide +kernel, by decide +kernel⟩
+
+/-- **each of the three tools returns a sequence** on the example: 3 linear steps from 0 to 1 in
+    steps of 1/2; 2 steps of 3 simultaneous variations; the 2-position sequence repeated twice -/
+example :
+    (makeLinearlyVaryingSequence exBase (.int 1) "ramp" (.str "stop") 0 1 (1/2)).map (fun s => Dict.keys s.data) =
+      .ok [1, 2, 3] ∧
+    (makeLinearlyVaryingSequence exBase1 (.int 1) "ramp" (.str "duration") 1 2 (1/2)).map (fun s => Dict.keys s.data) =
+      .ok [1, 2, 3] ∧
+    (makeVaryingSequence exBase [3, 3, 3, 3] exVars).map (fun s => Dict.keys s.data) = .ok [1, 2] ∧
+    (repeatAndVarySequence exSeq [3, 3, 3, 3, 3] [1, 2, 2] exVars).map (fun s => Dict.keys s.data) =
+      .ok [1, 2, 3, 4] := by decide +kernel
+
+/-- ... and the values are where `makeVarying_values` says: at step 2 the three addressed slots hold
+    3, 1/4, 6; an unaddressed slot (argument 0 of `ramp` on channel 2) still holds the base's 0 -/
+example :
+    (makeVaryingSequence exBase [3, 3, 3, 3] exVars).map (fun s =>
+      match Dict.get? s.data 2 with
+      | some (.el e) => [G5.readAt e (.int 1, "ramp", .arg 1), G5.readAt e (.int 1, "ramp", .arg 0),
+          G5.readAt e (.int 2, "ramp2", .arg 0), G5.readAt e (.int 2, "ramp", .arg 0)]
+      | _ => []) =
+    .ok [some (.num 3), some (.num (1/4)), some (.num 6), some (.num 0)] := by decide +kernel
+
+/-- "values that keep the element valid": sweeping a duration on one channel only of the two-channel
+    element makes the channels unequal at the second value; `addElement` raises ElementDurationError -/
+example :
+    (makeLinearlyVaryingSequence exBase (.int 1) "ramp" (.str "duration") 1 2 (1/2)).map (fun _ => ()) =
+      .error .elemdur := by decide +kernel
+
+/-- mismatched list lengths are rejected with ValueError (non-vacuity of `sweepSteps_mismatch`) -/
+example : (makeVaryingSequence exBase [3, 2, 3, 3] exVars).map (fun _ => ()) = .error .value := by decide +kernel
 
 end BB.C17
